@@ -49,6 +49,54 @@ def run(ctx):
     if why is None:
         r74(ctx, prog)
     r73b(ctx, prog)
+    r75(ctx, prog)
+
+
+def r75(ctx, prog):
+    """R7.6 tokenize is the composition of the two stages and nothing else: interpreted with the two stage functions opaque, it returns
+    stage2(stage1(input)?) - stage 1's error passed through - and the raw input is an argument of stage 1 only.  Everything the other
+    rules say about separators, comments and string literals is said about the stages; a scan of the raw text in front of them (a
+    "fail early" search for `/*` without `*/`, a parenthesis count) knows nothing of string literals and comments."""
+    from absint import subst, has_subterm
+    f = prog.fn('token::tokenize')
+    s1 = prog.fn('token::str_to_partial_tokens')
+    s2 = prog.fn('token::partial_tokens_to_tokens')
+    if f is None or s1 is None or s2 is None:
+        ctx.unrecognised('R7.6', 'tokenize', 'missing', 'tokenize / str_to_partial_tokens / partial_tokens_to_tokens not found')
+        return
+    try:
+        ps = Interp(prog, opaque=lambda g: g is s1 or g is s2, max_steps=50000).paths(f, [SYM('string')])
+    except Budget:
+        ctx.unrecognised('R7.6', 'tokenize', 'budget', 'too complex', span=f.span)
+        return
+    raw = SYM('string')
+    stage1 = None
+    bad = []
+    n_ok = n_err = 0
+    for ret, eff in ps:
+        calls = [e for e in eff if not e[0].startswith('<')]
+        for e in calls:
+            if e[0].split('::')[-1].split('#')[0] == 'str_to_partial_tokens' and tuple(e[2]) == (raw,) and len(e) > 4 and e[4] is not None:
+                stage1 = e[4]
+        for e in calls:
+            for a in e[2]:
+                if not isinstance(a, tuple) or not has_subterm(a, raw):
+                    continue
+                if stage1 is not None and (a == raw and e[4] == stage1 or not has_subterm(subst(a, stage1, SYM('stage1')), raw)):
+                    continue
+                bad.append('%s reads the raw input' % e[0].split('::')[-1])
+        if stage1 is None:
+            bad.append('a path does not call stage 1 on the input')
+            continue
+        okv = ('proj', stage1, ('as Ok', '0'))
+        errv = ('proj', stage1, ('as Err', '0'))
+        if ret[0] == 'app' and ret[1].split('::')[-1].split('#')[0] == 'partial_tokens_to_tokens' and len(ret[2]) == 1 and ret[2][0] == okv:
+            n_ok += 1
+        elif is_adt(ret, 'result::Result', 'Err') and (ret[4][0] == errv or (ret[4][0][0] == 'app' and ret[4][0][1].endswith('From>::from') and ret[4][0][2] == (errv,))):
+            n_err += 1
+        else:
+            bad.append('returns %s' % fmt(ret)[:120])
+    ctx.check(not bad and n_ok >= 1 and n_err >= 1, 'R7.6', 'tokenize', 'not-composition', 'tokenize(input) is partial_tokens_to_tokens(str_to_partial_tokens(input)?) and reads the raw input nowhere else (deviations: %s)' % sorted(set(bad))[:3], span=f.span)
 
 
 CHARS = ['"', '/', '*', '+', '-', '(', ',', '=', '&', 'a', '1', '.', '_', ' ', '\t', '\n', '\\', '\u00e9', '\u3000']
@@ -190,7 +238,7 @@ def r71_73(ctx, prog):
     ctx.check(err_ok, 'R7.1', 'comment-error', 'error', 'an error from comment skipping (unterminated `/*`) is returned unchanged and nothing is pushed', span=f.span)
     ctx.check(not plain_fail, 'R7.1', 'plain-character', 'char-error', 'a character that starts neither a comment nor a string always becomes a partial token and the scan continues (deviations: %s)' % plain_fail[:3], span=f.span)
     ctx.check(sorted(starters) == ['/'], 'R7.1', 'comment-start', 'starter', 'comment skipping is attempted only after a `/` (found after %s)' % sorted(starters), span=f.span)
-    ctx.check(sorted(string_starters) == ['"'], 'R7.5', 'string-start', 'starter', 'the string scanner is entered exactly at a `"` (found at %s)' % sorted(string_starters), span=f.span)
+    ctx.check(sorted(string_starters) == ['"'], 'R7.6', 'string-start', 'starter', 'the string scanner is entered exactly at a `"` (found at %s)' % sorted(string_starters), span=f.span)
     ctx.floor('R7.3', 'fusion_cases', n_fusion, 16)
 
 
@@ -323,7 +371,9 @@ def r74(ctx, prog):
         closed = any(ch == '/' and tv and any(i < j for i in stars) for j, (src, ch, tv, _) in enumerate(facts) if j >= 1)
         if line and not star:
             for src, ch, tv, in_for in facts[1:]:
-                if in_for and src == 'next':
+                # a character taken from the input (next(), in a `for` or a `while let` loop, here or in a helper) that compared equal
+                # on a path leaving the comment
+                if src == 'next' and tv:
                     terminators.add(ch)
         # a look-ahead character that was matched as part of a comment marker is consumed before the next look-ahead / the return
         pending = None
@@ -365,5 +415,5 @@ def r74(ctx, prog):
             ctx.unrecognised('R7.4', 'try_skip_comment:return', 'shape', 'unexpected return %s' % fmt(ret), span=f.span)
         if star and not closed and not line and ret != ('diverge',):
             ctx.check(is_adt(ret, 'result::Result', 'Err'), 'R7.4', 'unterminated', 'unterminated-accepted', 'an inline comment whose closing marker was not found is an error, never Ok (returns %s)' % fmt(ret), span=f.span)
-    ctx.check(n_true >= 2 and n_false >= 2 and n_err >= 1, 'R7.4', 'outcomes', 'outcomes', 'all three outcomes occur (true %d, false %d, error %d)' % (n_true, n_false, n_err), span=f.span)
+    ctx.check(n_true >= 2 and n_false >= 1 and n_err >= 1, 'R7.4', 'outcomes', 'outcomes', 'all three outcomes occur (true %d, false %d, error %d)' % (n_true, n_false, n_err), span=f.span)
     ctx.check(terminators == {'\n'}, 'R7.4', 'line-terminator', 'terminator', 'a line comment ends exactly at `\\n` (terminators %s)' % sorted(terminators), span=f.span)
